@@ -313,6 +313,12 @@ class Session:
         # the real loop thread keeps running while the caller thinks
         self.sched.drain()
         rec["state_drained"] = str(RE.state)
+        rec["snap"] = {
+            "subs": {n: [getattr(cb, "__qualname__", type(cb).__name__) for cb in dev.subs] for n, dev in self.ctx.devices.items() if hasattr(dev, "subs")},
+            "nops": self.ctx.nops,
+            "dispatcher_tokens": len(RE.dispatcher._token_mapping),
+            "scn": self.scn.snapshot(self) if hasattr(self.scn, "snapshot") else None,
+        }
         rec["ndocs_drained"] = len(self.docs)
         rec["nmsgs_drained"] = len(self.msgs)
         if rec["state_drained"] != rec["state_after"]:
